@@ -171,6 +171,20 @@ pub fn run(ctx: &Ctx) -> EvidenceMeta {
                         other_tid: o,
                     });
                 }
+                // special IPv6 addresses (IPv4-mapped, loopback, ...), as the address itself and as
+                // the wire form after the XOR
+                if a == 0 {
+                    for k in 0..10u64 {
+                        let sp = crate::gen::special_v6(k + ((p as u64) << 8) * 10);
+                        for addr in [sp, sp ^ ((0x2112_A442u128 << 96) | t)] {
+                            fixed.push(Case {
+                                addr: SocketAddr::new(IpAddr::V6(addr.into()), p).to_string(),
+                                tid: t,
+                                other_tid: t ^ 4,
+                            });
+                        }
+                    }
+                }
                 // address equal to cookie||tid: the XOR-ed value is all zero
                 fixed.push(Case {
                     addr: SocketAddr::new(IpAddr::V6(((0x2112_A442u128 << 96) | t).into()), p).to_string(),
@@ -185,10 +199,19 @@ pub fn run(ctx: &Ctx) -> EvidenceMeta {
         "generated",
         ctx.n(1_000_000, 20_000_000),
         || {
-            (sockaddr_strategy(), tid_strategy(), tid_strategy()).prop_map(|(addr, tid, other_tid)| Case {
-                addr,
-                tid,
-                other_tid,
+            (sockaddr_strategy(), tid_strategy(), tid_strategy(), any::<u64>(), any::<u16>()).prop_map(|(addr, tid, other_tid, s, port)| {
+                // one case in eight: an address whose *wire* form (after the XOR) is a special IPv6
+                // address, and one in eight a special address itself
+                let addr = match s % 8 {
+                    0 => {
+                        let wire = crate::gen::special_v6(s >> 3);
+                        let a = wire ^ ((0x2112_A442u128 << 96) | (tid & TID_MASK));
+                        SocketAddr::new(IpAddr::V6(a.into()), port ^ 0x2112).to_string()
+                    }
+                    1 => SocketAddr::new(IpAddr::V6(crate::gen::special_v6(s >> 3).into()), port).to_string(),
+                    _ => addr,
+                };
+                Case { addr, tid, other_tid }
             })
         },
         test,
